@@ -827,10 +827,14 @@ pub fn run_cases_subprocess_with_timeout(
                         }
                     }
                 }
-                if local.violations.len() >= MAX_VIOLATIONS_KEPT || !local.harness_errors.is_empty() {
+                // a deadlock costs a full watchdog period per worker: one is enough
+                let deadlock = local.violations.iter().any(|v| v.what.starts_with("deadlock:"));
+                let mut all = result.lock().unwrap();
+                all.merge(local);
+                if deadlock || all.violations.len() >= MAX_VIOLATIONS_KEPT || !all.harness_errors.is_empty() {
                     stop.store(true, Ordering::Relaxed);
                 }
-                result.lock().unwrap().merge(local);
+                drop(all);
             });
         }
     });
